@@ -11,8 +11,8 @@ import common as C
 PROPERTY = 'C17'
 FUNCTIONS = ['frappy.persistent.PersistentMixin.{__init__,loadPersistentData,loadParameters,saveParameters,__save_params,factory_reset}',
              'frappy.modulebase.Module.{announceUpdate,writeInitParams}']
-ASSUMPTIONS = ['file system model: open/write/close/rename/remove/mkdir are the operations; rename is atomic, writes are durable in '
-               'order; a crash stops the process at the chosen operation (nothing after it takes effect), an error raises OSError there',
+ASSUMPTIONS = ['file system model: open/write/close/rename/remove/mkdir are the operations; rename is atomic and moves the inode the open file object keeps writing to; written data is durable at once '
+               '(write-through) or only when the file is closed (buffered) - a symbolic selector; durable writes keep their order; a crash stops the process at the chosen operation (nothing after it takes effect), an error raises OSError there',
                'json.dump is modelled as two writes of a structure preserving token, json.load returns the structure or raises '
                'ValueError for an incomplete file (text level truncation is checked concretely with the real json module)',
                'persistent parameters: float, int (symbolic values), enum, string, struct (catalogue values); history of <= 2 changes',
